@@ -54,7 +54,7 @@ import (
 const (
 	gossipInterval = 50 * time.Millisecond
 	gracePeriod    = 2 * time.Second
-	settleBound    = 8 * time.Second // routing information settles / listeners reconnect
+	settleBound    = 20 * time.Second // routing information settles / listeners reconnect (generous: the box may be loaded)
 	pollEvery      = 10 * time.Millisecond
 	maxNotified    = 4 // pkg/gossip Leave: `notified > 3`
 )
@@ -197,10 +197,14 @@ type nodeEngine struct {
 	procDir string
 }
 
+var resetMs int
+
 // New returns the engine.
 func New() Engine { return &nodeEngine{} }
 
 func (e *nodeEngine) Reset() {
+	t0 := time.Now()
+	defer func() { resetMs += int(time.Since(t0).Milliseconds()) }()
 	if e.started {
 		for _, l := range e.ls {
 			_ = l.ln.Shutdown()
@@ -425,7 +429,15 @@ func (e *nodeEngine) recover(lost *nd, wantStatus string, o *Out) string {
 	return "seen=" + e.seen(lost) + " total=" + ShowCounts(e.total()) + " recovered=" + B01(okReg && okStatus && okReq)
 }
 
+// Step times every op (the totals end up in the evidence histogram).
 func (e *nodeEngine) Step(ws []string, o *Out) string {
+	t0 := time.Now()
+	line := e.step(ws, o)
+	o.Add("ms:"+ws[0], int(time.Since(t0).Milliseconds()))
+	return line
+}
+
+func (e *nodeEngine) step(ws []string, o *Out) string {
 	switch ws[0] {
 	case "init":
 		if e.started || len(ws) != 2 {
@@ -435,6 +447,8 @@ func (e *nodeEngine) Step(ws []string, o *Out) string {
 		if n < 2 || n > 8 {
 			return "bad-op"
 		}
+		o.Add("ms:reset", resetMs)
+		resetMs = 0
 		if !e.startNodes(n) {
 			o.Fail("C18", "no-convergence", "the cluster did not form")
 			return "fail converge"
@@ -470,7 +484,7 @@ func (e *nodeEngine) Step(ws []string, o *Out) string {
 			MinReconnectBackoff: 20 * time.Millisecond,
 			MaxReconnectBackoff: 200 * time.Millisecond,
 		}
-		ctx, cancel := context.WithTimeout(context.Background(), 3*time.Second)
+		ctx, cancel := context.WithTimeout(context.Background(), settleBound)
 		ln, err := u.Listen(ctx, ep)
 		cancel()
 		if err != nil {
@@ -539,12 +553,6 @@ func (e *nodeEngine) Step(ws []string, o *Out) string {
 		stopWatch := make(chan struct{})
 		go func() {
 			for {
-				select {
-				case <-stopWatch:
-					atLeave <- "unseen"
-					return
-				default:
-				}
 				if st, ok := g.NodeState(n.id); ok && st.Left {
 					c, err := net.DialTimeout("tcp", upAddr, 200*time.Millisecond)
 					if err == nil {
@@ -554,6 +562,12 @@ func (e *nodeEngine) Step(ws []string, o *Out) string {
 						atLeave <- "closed"
 					}
 					return
+				}
+				select {
+				case <-stopWatch:
+					atLeave <- "unseen"
+					return
+				default:
 				}
 				time.Sleep(20 * time.Microsecond)
 			}
@@ -586,9 +600,15 @@ func (e *nodeEngine) Step(ws []string, o *Out) string {
 		if notified > wantNotified {
 			notified = wantNotified
 		}
-		time.Sleep(time.Millisecond)
-		close(stopWatch)
-		upAtLeave := <-atLeave
+		// the watcher reports as soon as it has seen the marker (it is there by now, unless
+		// Leave never ran); only then is it told to stop
+		var upAtLeave string
+		select {
+		case upAtLeave = <-atLeave:
+		case <-time.After(2 * time.Second):
+			close(stopWatch)
+			upAtLeave = <-atLeave
+		}
 		if upAtLeave != "closed" {
 			o.Fail("C18", "upstream-port-"+upAtLeave+"-at-leave", n.id+": the left marker was written while the upstream server had not been shut down")
 		}
@@ -777,7 +797,7 @@ func (e *nodeEngine) decide(ctxCancelled bool, local, inject string, o *Out) str
 		MaxReconnectBackoff: 50 * time.Millisecond,
 	}
 	adds0 := r.mgr.n()
-	lctx, lcancel := context.WithTimeout(context.Background(), 2*time.Second)
+	lctx, lcancel := context.WithTimeout(context.Background(), settleBound)
 	ln, err := u.Listen(lctx, "decide")
 	lcancel()
 	if err != nil {
@@ -785,7 +805,7 @@ func (e *nodeEngine) decide(ctxCancelled bool, local, inject string, o *Out) str
 	}
 	defer func() { _ = ln.Shutdown() }()
 	wait := func(f func() bool) bool {
-		d := time.Now().Add(2 * time.Second)
+		d := time.Now().Add(5 * time.Second)
 		for !f() {
 			if time.Now().After(d) {
 				return false
@@ -847,30 +867,40 @@ func (e *nodeEngine) decide(ctxCancelled bool, local, inject string, o *Out) str
 		c, err := aw.AcceptWithContext(ctx)
 		ch <- res{c, err}
 	}()
-	out := ""
-	select {
-	case x := <-ch:
+	classify := func(x res) string {
 		switch {
 		case x.err == nil:
-			out = "accepted"
+			return "accepted"
 		case errors.Is(x.err, context.Canceled):
 			if strings.HasPrefix(x.err.Error(), "connect:") {
-				out = "connect-err"
-			} else {
-				out = "ctx-err"
+				return "connect-err"
 			}
+			return "ctx-err"
 		case errors.Is(x.err, client.ErrClosed):
-			out = "closed"
-		default:
-			out = "error"
+			return "closed"
 		}
-	case <-time.After(300 * time.Millisecond):
-		if wait(func() bool { return r.mgr.n() > adds1 }) && client.VListenerSession(ln) != sess {
-			out = "reconnected"
-		} else if r.mgr.n() > adds1 {
-			out = "reconnected"
-		} else {
-			out = "blocked"
+		return "error"
+	}
+	// AcceptWithContext either returns, or it reconnected (a new registration appears at the
+	// server and it blocks in the new session), or it just blocks on the old session
+	out := ""
+	deadline := time.Now().Add(5 * time.Second)
+	for out == "" {
+		select {
+		case x := <-ch:
+			out = classify(x)
+		case <-time.After(5 * time.Millisecond):
+			if r.mgr.n() > adds1 {
+				// give a racing return a moment, then call it a reconnect
+				select {
+				case x := <-ch:
+					out = classify(x)
+				case <-time.After(150 * time.Millisecond):
+					out = "reconnected"
+				}
+			} else if time.Now().After(deadline) || (inject == "none" && local == "none" && !ctxCancelled && time.Now().After(deadline.Add(-4500*time.Millisecond))) {
+				out = "blocked"
+			}
 		}
 	}
 	// the property, evaluated directly: remote loss and no local close and live context =>
